@@ -149,7 +149,7 @@ def rel_c18(fp, fields):
 FATES = ["F", "S", "FS", "N", "NS", "NFS", "K", "No", "U"]
 
 
-def chain_scenario(fates, waits=(), with_votes=(), voters=(0, 1), extra_certs=()):
+def chain_scenario(fates, waits=(), with_votes=(), voters=(0, 1), extra_certs=(), twins=()):
     """A consistent certificate universe over slots 1..len(fates).
     fate of a slot:  F fast-finalized (notar+ff)   S slow-finalized (notar+final)
       FS both (notar+ff+final)   N notarized, on chain   NS notarized then skipped (notar+skip)
@@ -181,6 +181,8 @@ def chain_scenario(fates, waits=(), with_votes=(), voters=(0, 1), extra_certs=()
             # the block exists and may be registered, but is not an ancestor of later blocks
             blocks.append(((s, h), parent))
     certs += list(extra_certs)
+    # twins: further validly signed blocks (an equivocating leader's other block of a slot, with its own parent)
+    blocks += list(twins)
     vs = "{" + ", ".join(votes) + "}"
     return scn(votes=vs, certs=certs, blocks=blocks, waits=waits)
 
